@@ -149,12 +149,9 @@ impl Sys {
         if !self.ro_files.is_empty() {
             v.push(Op::DropRoFile);
         }
-        v.push(Op::AttemptInProcess(0));
-        v.push(Op::AttemptInProcess(LARGE));
-        if with_child {
-            v.push(Op::AttemptChild(0));
-            v.push(Op::AttemptChild(LARGE));
-        }
+        // open attempts are not operations of the alphabet: `probe` makes them in every
+        // reached state
+        let _ = with_child;
         v
     }
 
@@ -333,6 +330,28 @@ impl Sys {
     }
 }
 
+impl Sys {
+    /// The open attempts C18 speaks about, made in the state the history has reached: from this
+    /// process and from a forked child process, with min_len 0 and beyond the file size while
+    /// an owner is alive (all must be refused and change nothing); with min_len 0 when no owner
+    /// is left (must succeed and see the flushed data; the probe's instance is dropped again).
+    fn probe(&mut self) -> Vec<(String, String)> {
+        let mut bad = Vec::new();
+        if self.owners() > 0 {
+            for min in [0, LARGE] {
+                bad.extend(self.apply(Op::AttemptInProcess(min)));
+                bad.extend(self.apply(Op::AttemptChild(min)));
+            }
+        } else {
+            bad.extend(self.apply(Op::AttemptChild(0)));
+            let n = self.handles.len();
+            bad.extend(self.apply(Op::AttemptInProcess(0)));
+            self.handles.truncate(n);
+        }
+        bad
+    }
+}
+
 impl Drop for Sys {
     fn drop(&mut self) {
         if let Some(f) = self.bg_release.take() {
@@ -345,7 +364,7 @@ impl Drop for Sys {
 pub fn add(run: &mut Run, kf: &KnownFindings, tier: &str) {
     let classify = kf.classifier("C18");
     let quick = tier == "quick";
-    let depth = if quick { 3 } else { 5 };
+    let depth = if quick { 4 } else { 6 };
     let root = Scratch::new("openx");
     let mut histories = 0u64;
     let mut steps = 0u64;
@@ -370,8 +389,9 @@ pub fn add(run: &mut Run, kf: &KnownFindings, tier: &str) {
             };
             let mut last = Vec::new();
             for (i, op) in hist.iter().enumerate() {
-                let bad = sys.apply(*op);
+                let mut bad = sys.apply(*op);
                 if i + 1 == hist.len() {
+                    bad.extend(sys.probe());
                     last = bad;
                 } else if !bad.is_empty() {
                     return (Vec::new(), Vec::new(), 0u64, true);
@@ -383,7 +403,7 @@ pub fn add(run: &mut Run, kf: &KnownFindings, tier: &str) {
             (last, next, obs, false)
         });
         steps += hist.len() as u64;
-        child_attempts += hist.iter().filter(|o| matches!(o, Op::AttemptChild(_))).count() as u64;
+        child_attempts += if hist.is_empty() { 0 } else { 2 };
         let shown: Vec<String> = hist.iter().map(|o| format!("{o:?}")).collect();
         match r {
             Err(p) => {
@@ -400,7 +420,7 @@ pub fn add(run: &mut Run, kf: &KnownFindings, tier: &str) {
                     }
                     continue;
                 }
-                if hist.len() < depth && !matches!(hist.last(), Some(Op::AttemptChild(_))) {
+                if hist.len() < depth {
                     for op in next {
                         let mut h = hist.clone();
                         h.push(op);
@@ -426,7 +446,7 @@ pub fn add(run: &mut Run, kf: &KnownFindings, tier: &str) {
         "open_attempts_from_child_processes": child_attempts,
     }));
     run.cov("explorations", e);
-    run.push_sample(json!({"exploration": "openx", "history": ["Open(0)", "KeepReader", "DropHandle", "AttemptChild(3149824)"]}));
+    run.push_sample(json!({"exploration": "openx", "history": ["Open(0)", "KeepReader", "DropHandle"], "probes_in_reached_state": ["open in this process: refused", "open(min_len > file) in this process: refused", "open in a forked child: refused", "open(min_len > file) in a forked child: refused"]}));
     for (sig, (shown, detail)) in found {
         let v = Violation {
             property: "C18".into(),
